@@ -246,3 +246,12 @@ def extra_checks(tier, repo, builddir):
         else:
             out.append(_res("e2-validation-%s" % key, "PASS", desc_v, stats=stv, backend="native differential run", obligations=v["exercised"]))
     return out
+
+
+# ---- cross-included by the main session: the record length gate of the engine (anchor src/ssl/ssl_engine.c:679-696)
+# is decided by the C06 inductive step of br_ssl_engine_recvrec_ack (over-long record refused at the header, regions
+# inside the caller's buffers, no empty-region wedge); a seeded change there (C05b) must fail C05 as well.
+_c05_queries = queries
+def queries():
+    import C06
+    return _c05_queries() + [q for q in C06.queries() if q.name.startswith("step-recvrec_ack-") and q.tier == "quick"]
